@@ -282,3 +282,33 @@ def guards_equivalent(pc_a, pc_b, implications=()):
                            "false": [a for a in atoms if not (r >> idx[a]) & 1],
                            "code": holds(pc_a, r), "spec": holds(pc_b, r)}
     return True, None
+
+
+def membership3(target, facts):
+    """three-valued: is a square in `target`, given facts [(set expression, bool)] about the same square's membership
+    in other sets?  Decided over the atoms' membership bits: true/false if all assignments consistent with the facts
+    agree, None otherwise (or when the facts are contradictory)."""
+    def expr(x):
+        from .rules.movegen import bool_to_expr
+        return bool_to_expr(x) if isinstance(x, tuple) and x and x[0] == "bool" else x
+    target = expr(target)
+    facts = [(expr(s), v) for s, v in facts]
+    atoms = []
+    collect_atoms(target, atoms)
+    for s, _ in facts:
+        collect_atoms(s, atoms)
+    if len(atoms) > 14:
+        return None
+    cols, ones = columns(atoms)
+    ok = ones
+    for s, v in facts:
+        tv = evaluate(s, cols, ones)
+        ok &= tv if v else (ones & ~tv)
+    if ok == 0:
+        return None
+    tt = evaluate(target, cols, ones)
+    if ok & ~tt == 0:
+        return True
+    if ok & tt == 0:
+        return False
+    return None
